@@ -375,6 +375,8 @@ class Run(RunBase):
     def propose_inner(self, rng):
         n = self.n
         if not self.started or self.needs_start:
+            if self.prop == "C35" and not self.started and self.jit is None and rng.random() < 0.3:
+                return {"op": "jit_create"}      # compiled from a reference sampler that was never started
             return self.gen_start(rng)
         occd = [i for i, c in enumerate(self.mocc) if c == 1]
         unoc = [i for i, c in enumerate(self.mocc) if c == 0]
